@@ -184,6 +184,10 @@ fn native_open(vm: &mut VM, args: &[Value]) -> Result<Value, RuntimeError> {
 fn native_close(vm: &mut VM, args: &[Value]) -> Result<Value, RuntimeError> {
     require_fs(vm, "fs.close")?;
     let h = get_handle(vm, args[0], "fs.close")?;
+    // look before taking: a handle of another kind (byte buffer, timer, socket) must survive the refusal
+    if !matches!(vm.get_resource(h), Some(Resource::File(_))) {
+        return Err(fs_error(vm, "fs.close", "invalid file handle".to_string()));
+    }
     match vm.take_resource(h) {
         Some(Resource::File(mut f)) => {
             if let Some(w) = f.writer.as_mut() {
